@@ -325,6 +325,7 @@ func registerFS(ex *Executor) {
 			ex.abort("File.Write of %T", args[1])
 		}
 		data := ex.bytesContent(st, b)
+		ex.logAccess(st, p, true) // the descriptor's file position / content: one writer at a time
 		if fv.Closed {
 			return TupleV{smt.IntC(0), ex.mkErr(st, "file already closed")}, cNext
 		}
@@ -343,7 +344,11 @@ func registerFS(ex *Executor) {
 		if fv.Append {
 			ino.Content = smt.Concat(ino.Content, data)
 		} else {
-			ino.Content = smt.App("overwrite_at_0", smt.String, ino.Content, data)
+			if ino.Content.IsConst() && ino.Content.S == "" {
+				ino.Content = data
+			} else {
+				ino.Content = smt.App("overwrite_at_0", smt.String, ino.Content, data)
+			}
 		}
 		ino.Writes++
 		st.Ghost["fs"] = fs
